@@ -338,12 +338,72 @@ func runC03(r *core.Run) {
 			r.Violation("cli-"+panicKey(st), fmt.Sprintf("pp exit=%d stderr=%s", res.Exit, core.Trunc(st, 1500)), "cli", &c03Case{Input: c.Input, Opts: strings.Join(args, " ")})
 		}
 	})
+	c03CLIClasses(r)
 	c03FS(r)
 	c03ProgTraces(r)
 	c03RealCrashes(r)
 	c03Special(r)
 	c03Linear(r)
 	nativeFuzzResult(r)
+}
+
+// c03CLIClasses: pp on race reports and dumps whose stacks (operation, creation and goroutine stacks of 1..4 frames)
+// lie entirely in one location class - the go-test generated main, the local Go root, a GOPATH that does not
+// exist, nowhere: what pp parsed it must be able to print, in every path format.
+func c03CLIClasses(r *core.Run) {
+	goroot := runtime.GOROOT()
+	pools := [][]string{
+		{"/tmp/go-build123/b001/_test/_testmain.go", "/tmp/go-build9/b077/_test/_testmain.go"},
+		{goroot + "/src/fmt/print.go", goroot + "/src/net/http/server.go", goroot + "/src/runtime/proc.go", goroot + "/src/testing/testing.go"},
+		{"/home/ci/go/src/github.com/a/b/c.go", "/home/ci/go/pkg/mod/github.com/d/e@v1.0.0/f.go"},
+		{"/nowhere/x.go", "y.go", "/z.go"},
+	}
+	n := r.N(60, 1500)
+	core.Parallel(n, workers(), func(i int) {
+		rr := core.NewRand(r.Seed, 35, uint64(i))
+		fill := func(fr []gen.Frame) {
+			pool := pools[rr.Intn(len(pools))]
+			for k := range fr {
+				fr[k].File = pool[rr.Intn(len(pool))]
+				fr[k].Line = 10 + rr.Intn(200)
+			}
+		}
+		var in []byte
+		if i%3 != 0 {
+			rc := gen.GenRace(rr, &gen.RaceCfg{MaxOps: 3, MaxFrames: 4, CreateMode: 1, ForceArgs: i%2 == 0})
+			rc.CRLF, rc.NoFinalEOL = false, false
+			for k := range rc.Ops {
+				fill(rc.Ops[k].Frames)
+			}
+			for k := range rc.Creates {
+				fill(rc.Creates[k].Frames)
+			}
+			in = rc.Render()
+		} else {
+			d := gen.GenDump(rr, &gen.Cfg{MaxG: 4, MaxFrames: 4, MaxDepth: 2, MaxArgs: 3}, 0)
+			for k := range d.Gs {
+				fill(d.Gs[k].Frames)
+				if d.Gs[k].Creator != nil {
+					pool := pools[rr.Intn(len(pools))]
+					d.Gs[k].Creator.File = pool[rr.Intn(len(pool))]
+				}
+			}
+			in = d.Render()
+		}
+		args := [][]string{nil, {"-full-path"}, {"-rel-path"}, {"-rebase=false"}, {"-aggressive", "-full-path"}}[i%5]
+		res := runPP(in, nil, args...)
+		r.Eval(1)
+		r.Count("pp_runs", 1)
+		r.Count("pp_class_runs", 1)
+		if res.TimedOut {
+			r.Inconclusive("pp watchdog fired on a single-class input")
+			return
+		}
+		if crashed(&res) || (res.Exit != 0 && res.Exit != 1) {
+			st := string(res.Stderr)
+			r.Violation("cli-"+panicKey(st), fmt.Sprintf("pp %v on a well-formed input whose stacks lie in one location class: exit=%d stderr=%s", args, res.Exit, core.Trunc(st, 1500)), "cli", &c03Case{Input: in, Opts: strings.Join(args, " ")})
+		}
+	})
 }
 
 // c03FS: path guessing and source analysis against generated file-system layouts (Go root, GOPATHs, module
